@@ -1,7 +1,8 @@
 /-
 Model of `earthkit.workflows.graph.export` (serialise / deserialise / to_json / from_json, after
-the C12 `fix:` commit), `Node.serialise` / `Output.serialise` (graph/nodes.py) and
-`Graph.__eq__` (graph/graph.py).
+the C12 `fix:` commits), `Node.serialise` / `Output.serialise` (graph/nodes.py), `Graph.__eq__`
+(graph/graph.py) and `Cascade.serialise` / `Cascade.from_serialised` (workflows/__init__.py; dill is a
+parameter, see `fileData` / `dillPV`).
 
 A Python `Graph` is a list of sink `Node` objects whose inputs point at parent objects.  Under the
 property's hypothesis (unique node names) an object reference is a name, so a graph is modelled
@@ -13,60 +14,146 @@ reachable from the sinks, computed by one backward sweep over the topological or
 orders (DFS order, `graphlib.TopologicalSorter.static_order`, dict order) are not modelled:
 `serialise` and `__eq__` are keyed by name and nothing in the property depends on an order; the
 model's `deserialise` takes the dict entries in a topological order and returns `.error` where
-Python would raise (`KeyError` for an unknown parent, `AttributeError` for a missing output).
+Python would raise (`KeyError` for an unknown parent, `AttributeError` for a missing output,
+`TypeError` for an input whose name is a keyword-bindable parameter of a function on the call path
+`_deserialise_node → node_factory → Node.__init__`, which all receive the inputs as `**kwargs`; the
+list of such names is generated from the source, `Gen/ExportParams.lean`).
 
-Payloads are JSON-like values plus tuples (`PV`); `jsonNorm` is `json.loads ∘ json.dumps`
-(tuples become lists, in payloads and in the `(parent, output)` references).
+Payloads (`PV`): None, bool, int, str, float (NaN flagged: `nan != nan`), opaque objects compared by
+identity (`atom`: functions and other callables; `byRef` = dill pickles it by reference), objects that
+have a `serialise()` method (`hook`: `Node.serialise` stores the method's result instead of the
+object, top level only), lists, tuples, dicts with str / int / bool / None keys.
+`normPV` is `json.loads ∘ json.dumps` (tuples become lists, keys become strings, later duplicates of
+a key overwrite earlier ones), `dillPV` is `dill.load ∘ dill.dump` (structure kept; a by-value
+object comes back as a NEW object).
 -/
 namespace EkwVerif.Export
 
 /-! ### payload values -/
+
+/-- dict keys -/
+inductive Key
+  | str (s : String)
+  | int (i : Int)
+  | bool (b : Bool)
+  | none
+deriving DecidableEq, Repr
 
 inductive PV
   | none
   | bool (b : Bool)
   | int (i : Int)
   | str (s : String)
+  | float (nan : Bool) (repr : String)   -- `repr` = float.hex(), "nan" for NaN
+  | atom (byRef : Bool) (id : Nat)       -- object compared by identity; `id` = which object
+  | hook (id : Nat) (ser : PV)           -- object `id` with a method `serialise()` returning `ser`
   | list (l : List PV)
   | tuple (l : List PV)
-  | dict (l : List (String × PV))
+  | dict (l : List (Key × PV))
 deriving Repr
 
+/-- the string `json.dumps` writes for a dict key -/
+def jsonKey : Key → String
+  | .str s => s
+  | .int i => toString i
+  | .bool true => "true"
+  | .bool false => "false"
+  | .none => "null"
+
+/-- `d[k] = v` on an insertion-ordered dict: overwrite in place, else append -/
+def dictSet (d : List (Key × α)) (k : Key) (v : α) : List (Key × α) :=
+  match d with
+  | [] => [(k, v)]
+  | (k', v') :: r => if k' = k then (k', v) :: r else (k', v') :: dictSet r k v
+
+/-- `dict(pairs)`: what `json.loads` builds from the pairs of an object -/
+def dictOfPairs (d : List (Key × α)) : List (Key × α) := d.foldl (fun acc e => dictSet acc e.1 e.2) []
+
 mutual
-/-- `json.loads(json.dumps(v))` on a value -/
+/-- `json.loads(json.dumps(v))` on a value `json.dumps` accepts (see `jsonable`) -/
 def normPV : PV → PV
   | .tuple l => .list (normL l)
   | .list l => .list (normL l)
-  | .dict d => .dict (normD d)
+  | .dict d => .dict (dictOfPairs (normD d))
   | v => v
 def normL : List PV → List PV
   | [] => []
   | v :: vs => normPV v :: normL vs
-def normD : List (String × PV) → List (String × PV)
+def normD : List (Key × PV) → List (Key × PV)
   | [] => []
-  | (k, v) :: r => (k, normPV v) :: normD r
+  | (k, v) :: r => (.str (jsonKey k), normPV v) :: normD r
 end
 
 mutual
-/-- Python `==` on payload values (structural; a tuple is never equal to a list) -/
-def pvEq : PV → PV → Bool
+/-- `json.dumps` accepts the value (otherwise it raises `TypeError`) -/
+def jsonable : PV → Bool
+  | .atom _ _ => false
+  | .hook _ _ => false
+  | .list l => jsonableL l
+  | .tuple l => jsonableL l
+  | .dict d => jsonableD d
+  | _ => true
+def jsonableL : List PV → Bool
+  | [] => true
+  | v :: vs => jsonable v && jsonableL vs
+def jsonableD : List (Key × PV) → Bool
+  | [] => true
+  | (_, v) :: r => jsonable v && jsonableD r
+end
+
+mutual
+/-- `dill.load(dill.dump(v))`: containers, numbers and strings are rebuilt with the same
+structure; an object pickled by reference is the same object again, one pickled by value is a new
+object (`fresh id`). -/
+def dillPV (fresh : Nat → Nat) : PV → PV
+  | .atom byRef id => if byRef then .atom byRef id else .atom byRef (fresh id)
+  | .hook id ser => .hook (fresh id) (dillPV fresh ser)
+  | .list l => .list (dillL fresh l)
+  | .tuple l => .tuple (dillL fresh l)
+  | .dict d => .dict (dillD fresh d)
+  | v => v
+def dillL (fresh : Nat → Nat) : List PV → List PV
+  | [] => []
+  | v :: vs => dillPV fresh v :: dillL fresh vs
+def dillD (fresh : Nat → Nat) : List (Key × PV) → List (Key × PV)
+  | [] => []
+  | (k, v) :: r => (k, dillPV fresh v) :: dillD fresh r
+end
+
+mutual
+/-- Python `x is y or x == y`, the comparison of container ELEMENTS.  `shared = true`: the two
+values are literally the same objects wherever they are structurally identical (the dict round
+trip hands the payload object through), so the identity shortcut makes a NaN inside a container
+equal to itself; `shared = false`: all objects are distinct (JSON, dill). -/
+def pvEqIn (shared : Bool) : PV → PV → Bool
   | .none, .none => true
   | .bool a, .bool b => a == b
   | .int a, .int b => a == b
   | .str a, .str b => a == b
-  | .list a, .list b => pvEqL a b
-  | .tuple a, .tuple b => pvEqL a b
-  | .dict a, .dict b => pvEqD a b
+  | .float na ra, .float nb rb => (shared || !(na || nb)) && na == nb && ra == rb
+  | .atom _ a, .atom _ b => a == b
+  | .hook a _, .hook b _ => a == b
+  | .list a, .list b => pvEqL shared a b
+  | .tuple a, .tuple b => pvEqL shared a b
+  | .dict a, .dict b => pvEqD shared a b
   | _, _ => false
-def pvEqL : List PV → List PV → Bool
+def pvEqL (shared : Bool) : List PV → List PV → Bool
   | [], [] => true
-  | a :: as, b :: bs => pvEq a b && pvEqL as bs
+  | a :: as, b :: bs => pvEqIn shared a b && pvEqL shared as bs
   | _, _ => false
-def pvEqD : List (String × PV) → List (String × PV) → Bool
+def pvEqD (shared : Bool) : List (Key × PV) → List (Key × PV) → Bool
   | [], [] => true
-  | (k, a) :: as, (k', b) :: bs => k == k' && pvEq a b && pvEqD as bs
+  | (k, a) :: as, (k', b) :: bs => k == k' && pvEqIn shared a b && pvEqD shared as bs
   | _, _ => false
 end
+
+/-- Python `==` on payload values, as `Graph.__eq__` applies it (`node.payload != onode.payload`):
+no identity shortcut at the top level, so a NaN payload is never equal, not even to itself; a tuple
+is never equal to a list.  (bool/int/float cross-type equality and dict order are not modelled:
+stricter than Python, never needed for a round trip.) -/
+def pvEq (shared : Bool) : PV → PV → Bool
+  | .float na ra, .float nb rb => !(na || nb) && ra == rb
+  | a, b => pvEqIn shared a b
 
 /-! ### nodes and graphs -/
 
@@ -125,10 +212,16 @@ def isNone : PV → Bool
   | .none => true
   | _ => false
 
+/-- `payload.serialise() if hasattr(payload, "serialise") else payload` (the payload object itself
+only, nothing inside it) -/
+def hookSer : PV → PV
+  | .hook _ ser => ser
+  | p => p
+
 def serNode (n : Node) : SNode :=
   { outputs := n.outputs
     inputs := n.inputs.map (fun i => (i.1, serSrc i.2))
-    payload := if isNone n.payload then none else some n.payload }
+    payload := if isNone n.payload then none else some (hookSer n.payload) }
 
 /-- `serialise(graph)`: one entry per node of `graph.nodes()` -/
 def serialise (g : Graph) : List (String × SNode) := (graphNodes g).map (fun n => (n.name, serNode n))
@@ -143,7 +236,18 @@ def jsonNorm (data : List (String × SNode)) : List (String × SNode) :=
                              inputs := e.2.inputs.map (fun i => (i.1, normRef i.2))
                              payload := e.2.payload.map normPV }))
 
-inductive Err | keyError | attributeError
+/-- `json.dumps(data)` succeeds -/
+def jsonOk (data : List (String × SNode)) : Bool :=
+  data.all (fun e => match e.2.payload with
+    | none => true
+    | some p => jsonable p)
+
+/-- `dill.load(dill.dump(data))` with `d` = what dill does to one payload value; names, output
+lists and references (str, list of str, tuple of str) are rebuilt exactly. -/
+def fileData (d : PV → PV) (data : List (String × SNode)) : List (String × SNode) :=
+  data.map (fun e => (e.1, { e.2 with payload := e.2.payload.map d }))
+
+inductive Err | keyError | attributeError | typeError
 deriving DecidableEq, Repr
 
 def findNode : List Node → String → Option Node
@@ -169,14 +273,18 @@ def resolveAll (built : List Node) : List (String × Ref) → Except Err (List (
       | .error e => .error e
       | .ok ss => .ok ((i, s) :: ss)
 
-/-- the loop of `deserialise` over the entries in topological order -/
-def deserLoop (built : List Node) : List (String × SNode) → Except Err (List Node)
+/-- the loop of `deserialise` over the entries in topological order.  `reserved` = the
+keyword-bindable parameter names along `_deserialise_node(name, node_data, node_factory, **node_inputs)`
+→ `node_factory(name, outputs, payload, **inputs)` → `Node(name, outputs, payload, **inputs)`: an input
+of such a name makes the call raise `TypeError` (after the inputs have been resolved). -/
+def deserLoop (reserved : List String) (built : List Node) : List (String × SNode) → Except Err (List Node)
   | [] => .ok built
   | (name, sn) :: rest =>
     match resolveAll built sn.inputs with
     | .error e => .error e
     | .ok ins =>
-      deserLoop (built ++ [{ name := name, outputs := sn.outputs, payload := sn.payload.getD .none, inputs := ins }]) rest
+      if sn.inputs.any (fun i => decide (i.1 ∈ reserved)) then .error .typeError else
+      deserLoop reserved (built ++ [{ name := name, outputs := sn.outputs, payload := sn.payload.getD .none, inputs := ins }]) rest
 
 /-- the parent named by a reference (`inp if isinstance(inp, str) else inp[0]`) -/
 def refParent : Ref → String
@@ -187,11 +295,24 @@ def refParent : Ref → String
 def consumed (data : List (String × SNode)) : List String :=
   data.flatMap (fun e => e.2.inputs.map (fun i => refParent i.2))
 
-/-- `deserialise(data)` (fixed: the sinks are the nodes nobody consumes) -/
-def deserialise (data : List (String × SNode)) : Except Err Graph :=
-  match deserLoop [] data with
+/-- `deserialise(data)` with the default node factory (fixed: the sinks are the nodes nobody
+consumes) -/
+def deserialise (reserved : List String) (data : List (String × SNode)) : Except Err Graph :=
+  match deserLoop reserved [] data with
   | .error e => .error e
   | .ok ns => .ok { nodes := ns, sinks := (ns.map (·.name)).filter (fun n => n ∉ consumed data) }
+
+/-- `from_json(to_json(g))` -/
+def jsonTrip (reserved : List String) (g : Graph) : Except Err Graph :=
+  if jsonOk (serialise g) then deserialise reserved (jsonNorm (serialise g)) else .error .typeError
+
+/-- `Cascade.from_serialised(f)` after `Cascade(g).serialise(f)`, dill's action on payloads being `d` -/
+def fileTrip (reserved : List String) (d : PV → PV) (g : Graph) : Except Err Graph :=
+  deserialise reserved (fileData d (serialise g))
+
+/-- `deserialise(data, node_factory)` for a factory that builds `Node(name, outputs, inv payload, **inputs)` -/
+def withFactory (inv : PV → PV) (g : Graph) : Graph :=
+  { g with nodes := g.nodes.map (fun n => { n with payload := inv n.payload }) }
 
 /-! ### `Graph.__eq__` -/
 
@@ -202,23 +323,21 @@ def lookupSrc : List (String × Src) → String → Option Src
 /-- `a.keys() == b.keys()` on key lists -/
 def sameKeys (a b : List String) : Bool := a.all (fun k => k ∈ b) && b.all (fun k => k ∈ a)
 
-def nodeEq (n o : Node) : Bool :=
+def nodeEq (shared : Bool) (n o : Node) : Bool :=
   n.name == o.name && n.outputs == o.outputs && sameKeys (n.inputs.map (·.1)) (o.inputs.map (·.1)) &&
   n.inputs.all (fun i => match lookupSrc o.inputs i.1 with
     | none => false
     | some s => i.2.parent == s.parent && i.2.out == s.out) &&
-  pvEq n.payload o.payload
+  pvEq shared n.payload o.payload
 
-def graphEq (a b : Graph) : Bool :=
+/-- `a == b`; `shared` as in `pvEqIn`: structurally identical payloads of the two graphs are the
+same Python objects -/
+def graphEq (shared : Bool) (a b : Graph) : Bool :=
   let na := graphNodes a
   let nb := graphNodes b
   sameKeys (na.map (·.name)) (nb.map (·.name)) &&
   na.all (fun n => match findNode nb n.name with
     | none => false
-    | some o => nodeEq n o)
-
-/-- node-set comparison used by the driver / oracle side: same records, field by field -/
-def sameNodes (a b : List Node) : Bool :=
-  a.length == b.length && (a.zip b).all (fun p => nodeEq p.1 p.2 && p.1.inputs.length == p.2.inputs.length)
+    | some o => nodeEq shared n o)
 
 end EkwVerif.Export
